@@ -1,6 +1,7 @@
 package main
 
 import (
+	"go/constant"
 	"sort"
 	"os"
 	"fmt"
@@ -917,6 +918,8 @@ func (ex *Exec) execDeferredInner(fr *Frame, st *State, d *ssa.Defer, args []*Va
 // execGo: the spawned body is not part of the sequential VC.  Cells it may
 // write become volatile for the parent from here on.
 func (ex *Exec) execGo(fr *Frame, st *State, in *ssa.Go) {
+	// at go[#k] requires ...: $callee is the name of the function started
+	ex.atObligations(fr, st, "go", in, map[string]*Value{"$callee": ex.constToValue(constant.MakeString(callName(in.Common())), types.Typ[types.String])})
 	ex.raceObligations(fr, st, in)
 	c := in.Common()
 	var fn *ssa.Function
